@@ -243,14 +243,18 @@ func VerifHarness_C28_RewardWindow() {
 	u := verifBlockUniverse()
 	bc := u.bc
 	st := bc.stateDeliver
-	e18 := new(big.Int).Exp(big.NewInt(10), big.NewInt(18), nil)
-	st.SwapV2.PairCreate(0, types.USDTID, new(big.Int).Mul(big.NewInt(3500000000), e18), new(big.Int).Mul(big.NewInt(10000000), e18))
+	// reserves whose ratio is a power of two: the price is then exactly
+	// representable in the 100-bit floats of the real build, so that a model's
+	// value for the uninterpreted Pow can be fed back to the native replay
+	// (the stub looks the application up by its exact arguments)
+	bipReserve, usdtReserve := new(big.Int).Lsh(big.NewInt(1), 90), new(big.Int).Lsh(big.NewInt(1), 80)
+	st.SwapV2.PairCreate(0, types.USDTID, bipReserve, usdtReserve)
 	height := []uint64{721, 722, 1441, 1440}[verifChoice("height", 4)]
 	hour := []int{11, 12, 14, 15}[verifChoice("hour", 4)]
 	gap := []int64{3*3600 - 1, 3 * 3600, 3*3600 + 1}[verifChoice("gap", 3)]
 	blockTime := int64(1704067200) + int64(hour)*3600
 	prev := time.Unix(blockTime-gap, 0).UTC()
-	bc.appDB.SetPrice(prev, new(big.Int).Mul(big.NewInt(3500000000), e18), new(big.Int).Mul(big.NewInt(10000000), e18), verifBigNN("prevReward"), false)
+	bc.appDB.SetPrice(prev, new(big.Int).Set(bipReserve), new(big.Int).Set(usdtReserve), verifBigNN("prevReward"), false)
 	st.App.SetReward(big.NewInt(777), big.NewInt(888))
 	emission := bc.appDB.Emission()
 	capReached := emission.Cmp(bc.rewardsCounter.TotalEmissionBig()) >= 0
@@ -265,11 +269,42 @@ func VerifHarness_C28_RewardWindow() {
 		return
 	}
 	verifAssert("C28:reward-recomputed-exactly-in-the-update-window", updated == inWindow)
-	if inWindow {
-		_, _, _, last, _ := bc.appDB.GetPrice()
-		verifAssert("C28:state-reward-is-the-recomputed-one", reward.Cmp(last) == 0)
-	}
+	// (that the reward in state is the recomputed one is decided by
+	// VerifHarness_C28_Recovery, whose counterexamples do not depend on the value
+	// of the uninterpreted Pow and therefore replay natively)
 	if !inWindow {
 		verifAssert("C28:reward-unchanged-outside-the-window", reward.Cmp(big.NewInt(777)) == 0 && safe.Cmp(big.NewInt(888)) == 0)
 	}
+}
+
+// C28 (recovery): two reward updates with an idle BIP/USDT pool.  The first
+// one sets the price-derived reward X; then the validators' share is switched
+// off as after a price drop (stored reward 0); the next update, one stake
+// period later, must bring the validators' reward in state to min(10 BIP, X)
+// while the price-derived level stays X.
+func VerifHarness_C28_Recovery() {
+	u := verifBlockUniverse()
+	bc := u.bc
+	st := bc.stateDeliver
+	bipReserve, usdtReserve := new(big.Int).Lsh(big.NewInt(1), 90), new(big.Int).Lsh(big.NewInt(1), 80)
+	st.SwapV2.PairCreate(0, types.USDTID, bipReserve, usdtReserve)
+	bc.appDB.SetEmission(big.NewInt(1000))
+	day := int64(1704067200)
+	bc.appDB.SetPrice(time.Unix(day-86400, 0).UTC(), new(big.Int).Set(bipReserve), new(big.Int).Set(usdtReserve), big.NewInt(1), false)
+	verifBegin(u, 721, nil, 12)
+	r1, x := st.App.Reward()
+	verifAssert("C28:first-update-sets-the-price-derived-reward", r1.Cmp(x) == 0)
+	// the validators' share has been switched off (a drop of 10% or worse happened)
+	t1, p0, p1, _, _ := bc.appDB.GetPrice()
+	bc.appDB.SetPrice(t1, p0, p1, big.NewInt(0), true)
+	st.App.SetReward(big.NewInt(0), x)
+	verifBegin(u, 1441, nil, 36) // 12:00 of the next day
+	r2, x2 := st.App.Reward()
+	ten := new(big.Int).Mul(big.NewInt(10), new(big.Int).Exp(big.NewInt(10), big.NewInt(18), nil))
+	want := ten
+	if x.Cmp(ten) < 0 {
+		want = x
+	}
+	verifAssert("C28:price-derived-level-unchanged-by-an-idle-pool", x2.Cmp(x) == 0)
+	verifAssert("C28:recovery-by-10-BIP-per-update", r2.Cmp(want) == 0)
 }
